@@ -547,6 +547,21 @@ func (sc *cliScenario) run(perm []int) string {
 		opts = append(opts, sc.opts[i].build(w))
 	}
 	opts = append(opts, cliOpt{kind: "other"}.build(w))
+	// the same option VALUES were applied to another client before (a shared base-options slice for per-user
+	// clients), followed there by that client's own credentials for every host of the pool: nothing configured on
+	// the other client may reach this one
+	{
+		sibling := []tp.ClientOption{tp.WithHTTP(&http.Client{Transport: &cliTransport{0, w}})}
+		for k, i := range perm {
+			if sc.opts[i].kind == "auth" || sc.opts[i].kind == "bearer" {
+				sibling = append(sibling, opts[k])
+			}
+		}
+		for _, host := range cliHostPool {
+			sibling = append(sibling, tp.WithBearerAuthentication("https://"+host, "SIBLING-CLIENT-SECRET"))
+		}
+		_ = tp.NewClient(cliFP, sibling...)
+	}
 	return guard(func() string {
 		c := tp.NewClient(cliFP, opts...)
 		ctx, cancel := context.WithTimeout(context.Background(), 10*time.Second)
